@@ -190,7 +190,7 @@ def codecMonStep (st : MonSt) (w : List String) : MonSt × String :=
                                   | none => obs.head? == some "val")
              if st.parsedFrom.isSome then
                -- after the trip through the wire: what was set must still be found (members of groups are not claimed)
-               if v.isSome && !okObs && obs != ["panic"] then out (st, [s!"followers_found\{dict={kindOfParsed st}}"])
+               if v.isSome && !(memberTags a).contains t && !okObs && obs != ["panic"] then out (st, [s!"followers_found\{dict={kindOfParsed st}}"])
                else out (st, panicOf k)
              else out (st, panicOf k ++ (if okObs || obs == ["panic"] then [] else ["api_latest"]))
        else (st, "bad-op")
